@@ -54,7 +54,7 @@ Next == (Family = "model" /\ \E i \in Inst : New(i) \/ \E sl \in Slots : Hack(i,
         (Family = "hist" /\ Len(hist) < MaxHist /\
              \E a \in {"redefine-operator", "overwrite-operator-with-garbage", "put-encoding-slot", "alter-cidinit",
                        "alter-errordict", "fail-halfway", "define-font-and-resource", "copy-userdict-into-systemdict",
-                       "rebind-true-false", "grow-stacks-and-fail", "mutate-all-reachable", "library-calls", "exceed-budget"} :
+                       "rebind-true-false", "grow-stacks-and-fail", "mutate-all-reachable", "library-calls", "exceed-budget", "fail-inside-eexec"} :
                  hist' = Append(hist, a) /\ UNCHANGED <<tmpl, inst>>)
 
 TemplatesUntouched == tmpl = "orig"
